@@ -49,7 +49,7 @@ ASSUMPTIONS = [
     'a space is PK (gets the default feature of every missing PK category, modelsearch.rst table) iff it mentions absorption, elimination, transits, peripherals, lagtime or metabolite (ModelFeatures.create)',
     'A-B: a PK category emptied by the difference may be empty or hold its default feature; it must hold the default when the result is a PK space',
     'covariate categories are compared only when no effect is optional in one place and forced in another (the docs do not define that combination)',
-    'stepwise: the two exclusions present only in the code (TRANSITS(0,NODEPOT) never; ABSORPTION(FO) with TRANSITS(1,NODEPOT)) are tolerated, not required',
+    'stepwise: TRANSITS(0,NODEPOT) is never a step at any depth (stated by a comment in _is_allowed, not by the docs) -- mandatory; the unexplained row ABSORPTION(FO) with TRANSITS(1,NODEPOT) of the code is tolerated, not required; acceptance of a non-peripheral step must not depend on the path being empty',
     'contain_subset / least_number_of_transformations are asserted for tool=None/"modelsearch" on PK operands only (their only callers)',
 ]
 
@@ -700,10 +700,34 @@ def _path_rule_violation(path, keys):
         else:
             if any(p[0] == f[0] for p in prev):
                 return 'two-features-of-one-category'
+            if f in R.COMMENTED_NEVER:
+                return 'transits0-nodepot-is-a-step'
             if not R.step_allowed(f, prev, keys, strict=False):
                 return 'excluded-combination'
         prev.add(f)
     return None
+
+
+def _position_independent(alg, nodes, keys, ctx):
+    """nodes: (set of previous features, new feature).  Whether a non-peripheral feature may be
+    added must not depend on the path being empty: it is accepted as first step iff it is
+    accepted after some non-empty set of features with which the pairwise rules allow it
+    (no rule, documented or in the code, mentions the position on the path)."""
+    nodeset = set(nodes)
+    states = {s for s, _ in nodeset if s}
+    for f in keys:
+        if f[0] == 'PERIPHERALS':
+            continue
+        later = [s for s in states if R.step_allowed(f, s, keys, strict=True, never=False)]
+        if not later:
+            continue
+        first = (frozenset(), f) in nodeset
+        after = any((s, f) in nodeset for s in later)
+        if first != after:
+            raise Violation(
+                f'{alg}:step-depends-on-empty-path', observed=dict(feature=list(f), accepted_as_first_step=first, accepted_later=after),
+                detail=f'{ctx}: {list(f)} is {"accepted" if first else "rejected"} as the first step but {"accepted" if after else "rejected"} after {_show(sorted(later, key=lambda x: (len(x), repr(x)))[0])}',
+            )
 
 
 def run_stepwise(spec):
@@ -736,6 +760,7 @@ def run_stepwise(spec):
         for p, c in cnt.items():
             if p not in may:
                 raise Violation('exhaustive_stepwise:' + (_path_rule_violation(p, keys) or 'unexpected-path'), observed=[list(f) for f in p], detail=ctx)
+        _position_independent('exhaustive_stepwise', [(frozenset(p[:-1]), p[-1]) for p in cnt], keys, ctx)
         dup = [p for p, c in cnt.items() if c > 1]
         if dup:
             raise Violation('exhaustive_stepwise:path-twice', observed=[list(f) for f in dup[0]], detail=ctx)
@@ -767,9 +792,12 @@ def run_stepwise(spec):
                     rule = 'peripherals-not-sequential'
                 elif any(p[0] == f[0] for p in s):
                     rule = 'two-features-of-one-category'
+                elif f in R.COMMENTED_NEVER:
+                    rule = 'transits0-nodepot-is-a-step'
                 elif not R.step_allowed(f, s, keys, strict=False):
                     rule = 'excluded-combination'
                 raise Violation('reduced_stepwise:' + (rule or 'unexpected-node'), observed=dict(previous=_show(s), new=list(f)), detail=ctx)
+        _position_independent('reduced_stepwise', list(got), keys, ctx)
         dup = [(s, f) for (s, f), c in got.items() if c > 1]
         if dup:
             s, f = sorted(dup, key=lambda x: (len(x[0]), repr(x)))[0]
@@ -792,6 +820,8 @@ def run_stepwise(spec):
         cl.add('has-excluded-combination')
     if len(must) != len(may):
         cl.add('undocumented-exclusion-applies')
+    if ('TRANSITS', 0, 'NODEPOT') in keys:
+        cl.add('transits0-nodepot-among-features')
     cl.add(f'nodes<={10 ** len(str(len(may)))}')
     nt = len(cats) >= 2 and (nper >= 2 or excl)
     return CaseInfo(nontrivial=nt, classes=tuple(sorted(cl)), key=repr(keys), render=dict(space=text, features=[list(k) for k in keys], nodes=len(may)), evals=max(1, evals))
@@ -1026,7 +1056,22 @@ PAIR = st.fixed_dictionaries(
 )
 MODEL_SPACE = st.fixed_dictionaries(dict(m=G.model_features(), s=st.one_of(G.space('pk', 1, 6), G.space('pk', 2, 6), G.space('algebra', 1, 6))))
 FUNCS = st.builds(lambda s, d: dict(s, drop=d), st.one_of(G.space('algebra', 1, 6), G.space('pk', 2, 6)), st.lists(st.integers(0, 20), max_size=4))
-STEPWISE = st.fixed_dictionaries(dict(s=G.space('pk', 3, 8), base=st.lists(st.integers(0, 5), min_size=5, max_size=5), alg=st.integers(0, 2)))
+# a TRANSITS statement with count 0 and NODEPOT / both depots / '*' (range 0..k or list [0,...]) is
+# appended to two thirds of the spaces: TRANSITS(0,NODEPOT) is the one feature that is never a step
+_T0 = st.fixed_dictionaries(
+    dict(
+        k=st.just(G.K['TRANSITS']),
+        a=st.one_of(st.integers(1, 3).map(lambda h: [0, h]), st.lists(st.integers(1, 5), max_size=2).map(lambda x: [0] + x)),
+        b=st.sampled_from([[1], [0, 1], [1, 0]]),
+        c=st.just([0]),
+        f=st.sampled_from([G.F_WILD2, G.F_WILD2 | G.F_RANGE, G.F_RANGE, 0, G.F_BRACKET]),
+    )
+)
+STEPWISE = st.builds(
+    lambda s, extra, base, alg: dict(s=dict(s, st=s['st'] + extra), base=base, alg=alg),
+    G.space('pk', 2, 7), st.sampled_from([0, 1, 1]).flatmap(lambda n: st.lists(_T0, min_size=n, max_size=n)),
+    st.lists(st.integers(0, 5), min_size=5, max_size=5), st.integers(0, 2),
+)
 SETS = st.fixed_dictionaries(dict(n=st.integers(0, 6), perm=st.lists(st.integers(0, 6), min_size=6, max_size=6), kind=st.integers(0, 1)))
 IIV = st.fixed_dictionaries(
     dict(n=st.integers(0, 5), cuts=st.lists(st.integers(0, 5), max_size=4), fixed=st.lists(st.integers(0, 3), max_size=2), offset=st.integers(0, 20))
